@@ -158,7 +158,7 @@ func init() {
 			return nil
 		},
 		"vfTier": func(m *Machine, fr *frame, fn *ssa.Function, a []Value) Value { return m.C.BVC(uint64(m.Opt.Tier), 64) },
-		"vfNow": func(m *Machine, fr *frame, fn *ssa.Function, a []Value) Value { return m.C.BVC(uint64(m.now), 64) },
+		"vfNow":  func(m *Machine, fr *frame, fn *ssa.Function, a []Value) Value { return m.C.BVC(uint64(m.now), 64) },
 		"vfPoint": func(m *Machine, fr *frame, fn *ssa.Function, a []Value) Value {
 			m.cur.points++
 			if id, ok := a[0].(T); ok && id.IsConst() {
